@@ -431,11 +431,16 @@ class _Emit(Walker):
     def init_state(self):
         return 0
 
+    test_locals = frozenset()      # locals of the loop body every binding of which is a test_def(...) call
+
     def transfer(self, s, ws):
         n = 0
         for x in ast.walk(s) if isinstance(s, ast.Expr) else []:
             if isinstance(x, ast.Call) and getattr(x.func, 'id', '') == 'test_def':
                 n += 1
+            elif isinstance(x, ast.Call) and isinstance(x.func, ast.Attribute) and x.func.attr == 'write' and len(x.args) == 1 \
+                    and isinstance(x.args[0], ast.Name) and x.args[0].id in self.test_locals:
+                n += 1                 # the test text was computed into a local first
         if n:
             return [World(w.asg, w.atoms, w.weak, w.state + n) for w in ws]
         return ws
@@ -459,6 +464,13 @@ def mustemit(run, p, rid):
     fake = ast.FunctionDef(name='_body', args=ast.arguments(posonlyargs=[], args=[], kwonlyargs=[], kw_defaults=[], defaults=[]),
                            body=loop.body, decorator_list=[], lineno=loop.lineno, col_offset=0)
     w = _Emit(fake, {'self', 'f', 'path', 'reference_files', 'r', 'actual_paths'})
+    bound = {}
+    for st in ast.walk(fake):
+        if isinstance(st, ast.Assign):
+            for t in st.targets:
+                for nm in ([t] if isinstance(t, ast.Name) else [e for e in getattr(t, 'elts', []) if isinstance(e, ast.Name)]):
+                    bound.setdefault(nm.id, []).append(st.value if isinstance(t, ast.Name) else None)
+    w.test_locals = frozenset(k for k, vs in bound.items() if vs and all(isinstance(v, ast.Call) and getattr(v.func, 'id', '') == 'test_def' for v in vs))
     w.run()
     counts = set()
     for kind, node, wl in w.exits:
